@@ -156,6 +156,7 @@ fn one(ctx: &Ctx, rng: &mut StdRng, b: &Value, only: &[&'static str], rep: &mut 
     let pv: i32 = if rng.gen_bool(0.8) { PVS[rng.gen_range(0 .. PVS.len())] } else { rng.gen() };
     // Java: the request settings reach the handshake either directly (protocol level) or as the caller's extra request settings
     // of the definition-driven entry point, where each of the two may be left unset (documented defaults: "gamedig", -1)
+    let mut via_row: Option<&'static str> = None;
     let via_extras = p == "java" && rng.gen_bool(0.5);
     let (set_host, set_pv) = (rng.gen_bool(0.6), rng.gen_bool(0.6));
     let (host, pv) = if via_extras { (if set_host { host } else { "gamedig".to_string() }, if set_pv { pv } else { -1 }) } else { (host, pv) };
@@ -181,10 +182,18 @@ fn one(ctx: &Ctx, rng: &mut StdRng, b: &Value, only: &[&'static str], rep: &mut 
             minecraft::protocol::query_java(&a, timeouts(r), Some(minecraft::RequestSettings { hostname: h2, protocol_version: pv }))
         })
     } else {
-        proto::call(p, &script, port, r, None)
+        // every third case goes through the definition-driven entry point of a table row that speaks the protocol (the retry
+        // contract is the caller's, whichever entry point carries the timeout settings)
+        match proto::row_of(p).filter(|_| rng.gen_range(0 .. 3) == 0) {
+            Some(id) => {
+                via_row = Some(id);
+                proto::call_generic(id, &script, port, r)
+            }
+            None => proto::call(p, &script, port, r, None),
+        }
     };
     rep.evaluations += 1;
-    let case = json!({"behaviour": b, "script": script, "java": {"host": host, "proto": pv, "via_extras": via_extras, "set": [set_host, set_pv]}});
+    let case = json!({"behaviour": b, "script": script, "java": {"host": host, "proto": pv, "via_extras": via_extras, "set": [set_host, set_pv]}, "table_row": via_row});
     let mut fail = |prop: &'static str, sig: String, detail: Value| {
         let (prop, sig) = if prop == "C09" && !only.is_empty() && !only.contains(&"C09") {
             (only[0], format!("a conforming server would not have answered: {sig}"))
